@@ -22,7 +22,8 @@ import spell
 warnings.simplefilter('ignore', FutureWarning)
 PID = 'C20'
 SOURCES = ['SoupVerif/Properties/C20.lean', 'SoupVerif/Model/Context.lean', 'SoupVerif/Model/Pretty.lean',
-           'SoupVerif/Spec/Context.lean', 'SoupVerif/Spec/Pretty.lean', 'SoupVerif/Lemmas/Context.lean', 'SoupVerif/Lemmas/Pretty.lean']
+           'SoupVerif/Spec/Context.lean', 'SoupVerif/Spec/Pretty.lean', 'SoupVerif/Lemmas/Context.lean', 'SoupVerif/Lemmas/Pretty.lean',
+           'SoupVerif/Generated/PyContext.lean', 'SoupVerif/Model/PyCtx.lean', 'SoupVerif/Properties/C20Gen.lean']   # get_pattern_context translated from the source
 RULE = ('(a) get_pattern_context(p, i) for every string p over {a, LF, CR} up to a length and every offset 0..len(p), plus '
         'random multi-line selector texts: PY vs an independent line/column oracle (the property) and vs the Lean model; '
         '(b) every SelectorSyntaxError raised by malformed / truncated selectors: line, col and context must equal the '
